@@ -12,8 +12,10 @@ def _rand_poly(rng, rows, cols):
     import numpy as np
     import puan
     import puan.ndarray as pnd
-    A = [[rng.choice(PALETTE) if rng.random() < 0.75 else 0 for _ in range(cols)] for _ in range(rows)]
-    b = [rng.randint(-5, 5) for _ in range(rows)]
+    big = rng.random() < 0.35   # coefficients of larger magnitude (division rounding, float representation)
+    coef = (lambda: rng.choice([-1, 1]) * rng.randint(5, 120)) if big else (lambda: rng.choice(PALETTE))
+    A = [[coef() if rng.random() < 0.75 else 0 for _ in range(cols)] for _ in range(rows)]
+    b = [rng.randint(-5, 5) * (rng.choice([1, 7, 25, 49, 75]) if big else 1) for _ in range(rows)]
     M = np.array([[bi] + ai for bi, ai in zip(b, A)], dtype=np.int64).reshape(rows, cols + 1)
     vs = [puan.variable(0, (1, 1))] + [puan.variable("v%d" % j, rng.choice(BOXES)) for j in range(cols)]
     idx = [puan.variable("r%d" % i) for i in range(rows)]
